@@ -220,10 +220,23 @@ def oracle(sc, res):
                 return f"address {a.hex()} not taken from an unexpired address record of host {info[1][0]}"
     elif has_addr:
         return "addresses without a host"
-    # cache-first: if the cache held, unexpired at t0, the newest SRV of the instance and an address of its host -> no transmission
-    def newest(kind, name):
-        c = [(t, r) for t, r, exp in seen if t <= t0 and r['kind'] == kind and r['name'].lower() == name.lower() and r['ttl'] > 0]
-        return c[-1] if c else None
+    # cache-first: when the cache held, unexpired at t0, exactly one SRV of the instance and an address of its host, the lookup answers at
+    # once and transmits nothing
+    rc0 = refcache.RefCache(NoProbes())
+    for t, recs in events:
+        if t > t0 or (t == t0 and recs is not None and (t - t0, recs) in [(dt, r) for dt, r in sc['during']]):
+            break
+        if recs is None:
+            rc0.event(('purge', t))
+        else:
+            rc0.event(('resp', t, recs, []))
+    live0 = [d for d in rc0.flat.values() if d['created'] + 1000 * d['ttl'] > t0]
+    srvs = [d for d in live0 if d['kind'] == 'KService' and d['name'].lower() == NAME.lower()]
+    if len(srvs) == 1 and any(d['kind'] == 'KAddress' and d['name'].lower() == srvs[0]['server'].lower() for d in live0):
+        if res['sends'] and res['sends'][0][0] == t0:
+            return f"the cache already held a live SRV and address at the start, yet a query was transmitted at +0"
+        if not (res['result'] and res['t_ret'] == t0):
+            return f"the cache already held a live SRV and address at the start, yet the lookup returned {res['result']} at +{res['t_ret'] - t0}"
     return oracle_questions(sc, res)
 
 
